@@ -258,6 +258,37 @@ def multi_binding_pairs(lang):
     return out
 
 
+def wide_binding_pairs(lang):
+    """a pattern variable bound to a spine of 3..13 atoms in which the feature variable occurs at two positions i < j and meets two
+    different values there (atom positions with two digits: 10, 11, 12), forward and backward application; the variable also occurs in the result"""
+    out = []
+    if lang == 'en':
+        var, v1, v2, plain = K.P('NP[X]'), K.P('NP[expl]'), K.P('NP[thr]'), K.P('NP')
+        res = K.P('S[X]\\NP')
+    else:
+        nf = lambda m: K.Atom('NP', K.TernaryFeature(('case', 'nc'), ('mod', m), ('fin', 'f')))
+        var, v1, v2, plain = nf('X1'), nf('nm'), nf('adn'), nf('adv')
+        res = K.P('S[mod=X1,form=base,fin=f]\\NP[case=ga,mod=nm,fin=f]')
+
+    def spine(atoms):
+        c = atoms[0]
+        for k, a in enumerate(atoms[1:]):
+            c = K.Functor(c, '\\' if k == 0 else '/', a)
+        return c
+    for n in (3, 5, 9, 10, 11, 12, 13):
+        for i, j in itertools.combinations(range(n), 2):
+            if n > 5 and not (j >= 9 or i == 0 and j == 1):
+                continue        # the long spines are there for the two-digit positions
+            pat = [plain] * n
+            val = [plain] * n
+            pat[i] = pat[j] = var
+            val[i], val[j] = v1, v2
+            B, Y = spine(pat), spine(val)
+            out.append((K.Functor(res, '/', B), Y))
+            out.append((Y, K.Functor(res, '\\', B)))
+    return out
+
+
 def shard_fn(sh):
     install_seam()
     st = core.Stats()
@@ -292,6 +323,11 @@ def shard_fn(sh):
         for x, y in multi_binding_pairs(lang):
             for x2, y2 in PR.perturb_pairs(x, y):
                 judge_pair(st, lang, x2, y2, 'multi', [('shipped', S_['seen'])])
+    elif kind == 'wide':
+        _, lang, lo, hi, _ = sh
+        S_ = SOURCES(tier)[lang]
+        for x, y in wide_binding_pairs(lang)[lo:hi]:
+            judge_pair(st, lang, x, y, 'wide', [('shipped', S_['seen'])])
     elif kind == 'unary':
         _, lang, lo, hi, _ = sh
         U = SOURCES(tier)[lang]['u2']
@@ -332,7 +368,7 @@ def digest_main():
     for lang, var in (('en', 'en'), ('ja', 'ja')):
         fn = en.apply_binary_rules if lang == 'en' else ja.apply_binary_rules
         inv = PR.inventory(var)[:110]
-        extra = [p for x, y in multi_binding_pairs(lang) for p in PR.perturb_pairs(x, y)]
+        extra = [p for x, y in multi_binding_pairs(lang) for p in PR.perturb_pairs(x, y)] + wide_binding_pairs(lang)
         for x, y in itertools.chain(((x, y) for x in inv for y in inv), extra):
             h.update(repr((str(x), str(y), sig(fn(x, y)))).encode())
     print('DIGEST', h.hexdigest())
@@ -387,6 +423,9 @@ def plan(tier):
         grid('ja', 'inv', 'closure', 10)
     for lang in ('en', 'ja'):
         sh.append(('multi', lang, tier))
+        nw = len(wide_binding_pairs(lang))
+        for lo in range(0, nw, 16):
+            sh.append(('wide', lang, lo, min(nw, lo + 16), tier))
         n = len(S_[lang]['u2']) + len(data.unary_rules(lang))
         for lo in range(0, n, 60):
             sh.append(('unary', lang, lo, min(n, lo + 60), tier))
